@@ -107,7 +107,8 @@ class ScriptedServerSet(object):
 class StackWorld(object):
   def __init__(self, env, rng, kind='thrift', n_eps=1, balancer='aperture', timeout=10.0,
                client_id=None, open_timeout=None, scripted=False, policy=None, iface=None,
-               resurrector=None, pool=None, server_modes=None, connect_latency=None, processor_module=None):
+               resurrector=None, pool=None, server_modes=None, connect_latency=None, processor_module=None,
+               aperture=None):
     from scales.constants import SinkRole
     from scales.loadbalancer import HeapBalancerSink
     from scales.pool import WatermarkPoolSink
@@ -138,6 +139,9 @@ class StackWorld(object):
       b = ThriftMux.NewBuilder(self.iface, client_id=client_id)
     if balancer == 'heap':
       b = b.ReplaceRole(SinkRole.LoadBalancer, HeapBalancerSink.Builder())
+    elif aperture:
+      from scales.loadbalancer import ApertureBalancerSink
+      b = b.ReplaceRole(SinkRole.LoadBalancer, ApertureBalancerSink.Builder(**aperture))
     if resurrector:
       b = b.ReplaceSink(ResurrectorSink.Builder, ResurrectorSink.Builder(**resurrector))
     if pool and kind == 'thrift':
